@@ -55,6 +55,11 @@ Ceil(x) == LET result == Floor(Wrap(x + 65535)) IN IF x <= result THEN result EL
 OkSum(s, out) == IF Finite(s) THEN out = s ELSE IsNaN(out)
 Inv_C01_add == (Finite(a) /\ Finite(b)) => OkSum(a + b, Addi(a, b))
 Inv_C01_sub == (Finite(a) /\ Finite(b)) => OkSum(a - b, Subi(a, b))
+(* C03, FxAlgo.fixed_division_by_scalar after "fix: fixed / integer traps ...": a signed divisor equal to -1 never reaches the
+   division instruction; the quotient is the unsigned negation, which is the exact quotient a / -1 for every raw word
+   except the lowest one (whose exact quotient 2^63 is not a word) *)
+DivM1(lh) == Wrap(0 - lh)
+Inv_C03_div_m1 == IsRaw(DivM1(a)) /\ (a # -P63 => DivM1(a) = -a) /\ (Finite(a) => Finite(DivM1(a)))
 (* C06 *)
 Inv_C06_neg_abs == Finite(a) => (Neg(Neg(a)) = a /\ Finite(Neg(a)) /\ Abs(a) >= 0 /\ Abs(Neg(a)) = Abs(a) /\ Finite(Abs(a))
                                   /\ (Abs(a) = a \/ Abs(a) = -a))
